@@ -347,12 +347,30 @@ var _ rpc.Resources
 //@ func (*Service).wsHeaderAuth
 //@   trusted
 //@   requires s != nil && c != nil
+//@   ensures err != nil ==> reserr.predErrOK(err)
+// Dispose queues the cleanup on the connection worker, once; a connection that is already
+// disposing refuses it and is not waited for.
 //@ func (*wsConn).Dispose
-//@   trusted
-//@   requires c != nil
+//@   requires predConnOK(c)
+//@   ensures[C11] callcount("Enqueue") == old(callcount("Enqueue")) + 1
+//@   safety[C15]
+//@ closure (*wsConn).Dispose#1
+//@   requires predConnOK(c)
+//@   assumes predSubsOK(c) && c.serv.conns != nil
+//@   ensures[C11] c.disposing && callcount("dispose") == old(callcount("dispose")) + 1
+//@   safety[C15]
+
+// listen: every frame read from the socket is queued for the worker exactly once, as a request of
+// this connection; when reading fails the connection is disposed, once.
 //@ func (*wsConn).listen
-//@   trusted
+//@   requires predConnOK(c) && ws != nil
+//@   ensures[C11] callcount("Dispose") == old(callcount("Dispose")) + 1
+//@   assert[C11] c.Dispose#1: c.ws == ws
+//@   safety[C15]
+//@   loop 1 invariant callcount("Dispose") == old(callcount("Dispose")) && c.ws == ws
+//@ closure (*wsConn).listen#1
 //@   requires c != nil
+//@   assert[C07,C10] rpc.HandleRequest#1: arg0 == in && arg1 == c
 
 // wsHandler: without a connection (service not running, or stopping) nothing is upgraded and
 // no service request is made; a direct response status of the header-auth answer ends the
@@ -691,6 +709,7 @@ var _ rpc.Resources
 //@   requires s != nil && s.c != nil && predConnOK(s.c.(*wsConn)) && (err == nil ==> resourceSub != nil && resourceSub.e != nil && resourceSub.e.cache != nil)
 //@   ensures[C11] err == nil && old(s.state) == stateDisposed ==> callcount("Unsubscribe") == old(callcount("Unsubscribe")) + 1 && s.resourceSub == old(s.resourceSub) && s.state == stateDisposed
 //@   ensures[C11] err == nil && old(s.state) != stateDisposed ==> callcount("Unsubscribe") == old(callcount("Unsubscribe"))
+//@   loop 1 assume rcb != nil && rcb.refMap != nil
 //@   safety[C15]
 
 //@ func (*Subscription).CanGet
